@@ -88,6 +88,15 @@ def _graph(pk, n, m):
     return pk.graph_game.GraphCooperativeGame(a)
 
 
+def _accessors(pk, g, n):
+    """The same table through every public accessor: one by one, all at once, and an explicit (reversed) coalition list."""
+    C = pk.coalitions.Coalition
+    ids = list(range(2 ** n))
+    rev = ids[::-1]
+    listed = list(g.get_values([C(S) for S in rev]))
+    return {"single": [g.get_value(C(S)) for S in ids], "all": list(g.get_values()), "listed": [listed[rev.index(S)] for S in ids]}
+
+
 def scenario(pk, params, inp):
     n = params["n"]
     C = pk.coalitions.Coalition
@@ -109,19 +118,38 @@ def scenario(pk, params, inp):
                "norm": [g.get_value(C(S)) for S in range(2 ** n)],
                "normL": list(g.get_lower_bounds()), "normU": list(g.get_upper_bounds()),
                "known": [bool(x) for x in g.are_values_known()]}
+        acc = {"norm": _accessors(pk, g, n)}
         nz.denormalize_game(g, info)
         out["restored"] = [g.get_value(C(S)) for S in range(2 ** n)]
+        acc["restored"] = _accessors(pk, g, n)
+        info2 = nz.normalize_game(g)
+        acc["norm2"] = _accessors(pk, g, n)
+        nz.denormalize_game(g, info2)
+        acc["restored2"] = _accessors(pk, g, n)
+        out["acc"] = acc
         return out
     m = _m(params, inp)
     gg = _graph(pk, n, m)
     raw = [gg.get_value(C(S)) for S in range(2 ** n)]
     tab = _full(pk, n, list(gg.get_values()))
+    acc = {"raw": _accessors(pk, gg, n)}
     info_g = nz.normalize_game(gg)
     info_t = nz.normalize_game(tab)
     out = {"raw": raw, "surplus": info_g[0], "surplus_tab": info_t[0],
            "norm": [gg.get_value(C(S)) for S in range(2 ** n)], "norm_tab": [tab.get_value(C(S)) for S in range(2 ** n)]}
+    acc["norm"] = _accessors(pk, gg, n)
+    acc["norm_tab"] = _accessors(pk, tab, n)
     nz.denormalize_game(gg, info_g)
     out["restored"] = [gg.get_value(C(S)) for S in range(2 ** n)]
+    acc["restored"] = _accessors(pk, gg, n)
+    nz.denormalize_game(tab, info_t)
+    acc["restored_tab"] = _accessors(pk, tab, n)
+    # a second normalise / de-normalise cycle on the same objects (state kept from the first one must not leak)
+    info_g2 = nz.normalize_game(gg)
+    acc["norm2"] = _accessors(pk, gg, n)
+    nz.denormalize_game(gg, info_g2)
+    acc["restored2"] = _accessors(pk, gg, n)
+    out["acc"] = acc
     return out
 
 
@@ -171,6 +199,7 @@ def claims(params, inp, out, lg):
         cl.append(("grand-one-or-all-zero", lg.And(lg.Implies(nonzero, lg.eq(norm[N], one)),
                                                  lg.Implies(lg.Not(nonzero), lg.And([lg.eq(norm[S], zero) for S in range(2 ** n)])))))
         cl.append(("normalised-superadditive", lg.And(F.sa_constraints(norm, n, lg))))
+        cl += _acc_claims(lg, out["acc"], {"norm": norm, "restored": v, "norm2": norm, "restored2": v})
         return cl
     raw = out["raw"]
     m = _m(params, inp)
@@ -190,6 +219,23 @@ def claims(params, inp, out, lg):
     cl.append(("grand-one-or-all-zero", lg.And(lg.Implies(nonzero, lg.eq(out["norm"][N], one)),
                                              lg.Implies(lg.Not(nonzero), lg.And([lg.eq(out["norm"][S], zero) for S in range(2 ** n)])))))
     cl.append(("normalised-superadditive", lg.And(F.sa_constraints(out["norm"], n, lg))))
+    cl += _acc_claims(lg, out["acc"], {"raw": raw, "norm": out["norm"], "norm_tab": out["norm"], "restored": raw, "restored_tab": raw,
+                                       "norm2": out["norm"], "restored2": raw})
+    return cl
+
+
+def _acc_claims(lg, acc, want):
+    """At every stage every accessor shows the same table, namely the expected one (a second cycle reproduces the first)."""
+    cl = []
+    for stage, ref in want.items():
+        a = acc[stage]
+        ok = []
+        for kind in ("single", "all", "listed"):
+            if len(a[kind]) != len(ref):
+                ok.append(False)
+                continue
+            ok += [lg.eq(x, r) for x, r in zip(a[kind], ref)]
+        cl.append((f"every-accessor-shows-the-table:{stage}", lg.And(ok), "C15/accessors-disagree"))
     return cl
 
 
